@@ -158,9 +158,19 @@ def _run(files, m_cache, cache_exists, db, load_exc, options, raw_kind=0):
     return ("FRESH" if r == "FRESH" else "CACHED"), calls
 
 
+def _near_version(v):
+    """Same public version, different local label / dirty marker (PEP 440 '+local'): still another build."""
+    if "+" in v:
+        pub, loc = v.split("+", 1)
+        return pub + "+" + ("x" + loc if not loc.startswith("x") else loc[1:])
+    return v + "+other.build"
+
+
 def _db(version_same, old, codegen):
     db = dict(_DB)
-    db["version"] = A.__version__ if version_same else "0.0.other"
+    old = dict(old)
+    near = old.pop("__near__", False)
+    db["version"] = A.__version__ if version_same else (_near_version(A.__version__) if near else "0.0.other")
     o = dict(_DB["options"])
     o.update(old)
     o["cache"] = not codegen
@@ -173,7 +183,7 @@ def _db(version_same, old, codegen):
 
 
 def stale(m_t: int, m_u: int, m_l: int, m_n: int, m_c: int, ch_t: bool, u_present: bool, u_new: bool, ch_l: bool, ch_n: bool,
-          ver_same: bool, da_old: bool, da_new: bool, rx_old: int, rx_new: int, lib_old: int, lib_new: int, codegen: bool) -> int:
+          ver_same: bool, da_old: bool, da_new: bool, rx_old: int, rx_new: int, lib_old: int, lib_new: int, codegen: bool, ver_near: bool = False) -> int:
     """
     pre: pin(codegen=codegen, lib_new=lib_new, lib_old=lib_old)
     pre: 0 <= rx_old <= 2 and 0 <= rx_new <= 2 and 0 <= lib_old <= 2 and 0 <= lib_new <= 2
@@ -181,11 +191,11 @@ def stale(m_t: int, m_u: int, m_l: int, m_n: int, m_c: int, ch_t: bool, u_presen
     pre: (not ch_t or m_t > m_c) and (not (u_present and u_new) or m_u > m_c) and (not ch_l or m_l > m_c) and (not ch_n or m_n > m_c)
     post: _ == 1
     """
-    return _stale(m_t, m_u, m_l, m_n, m_c, ch_t, u_present, u_new, ch_l, ch_n, ver_same, da_old, da_new, rx_old, rx_new, lib_old, lib_new, codegen, True)
+    return _stale(m_t, m_u, m_l, m_n, m_c, ch_t, u_present, u_new, ch_l, ch_n, ver_same, da_old, da_new, rx_old, rx_new, lib_old, lib_new, codegen, True, ver_near)
 
 
 def stale_other(m_t: int, m_u: int, m_l: int, m_n: int, m_c: int, ch_t: bool, u_present: bool, u_new: bool, ch_l: bool, ch_n: bool,
-                ver_same: bool, da_old: bool, da_new: bool, rx_old: int, rx_new: int, lib_old: int, lib_new: int, codegen: bool) -> int:
+                ver_same: bool, da_old: bool, da_new: bool, rx_old: int, rx_new: int, lib_old: int, lib_new: int, codegen: bool, ver_near: bool = False) -> int:
     """
     pre: pin(codegen=codegen, lib_new=lib_new, lib_old=lib_old) and lib_old != lib_new
     pre: 0 <= rx_old <= 2 and 0 <= rx_new <= 2 and 0 <= lib_old <= 2 and 0 <= lib_new <= 2
@@ -195,10 +205,10 @@ def stale_other(m_t: int, m_u: int, m_l: int, m_n: int, m_c: int, ch_t: bool, u_
     """
     # same step with a changed library_folders option, NOT counting that change as a reason to recompile:
     # keeps every other invalidation rule covered while the library_folders finding is open
-    return _stale(m_t, m_u, m_l, m_n, m_c, ch_t, u_present, u_new, ch_l, ch_n, ver_same, da_old, da_new, rx_old, rx_new, lib_old, lib_new, codegen, False)
+    return _stale(m_t, m_u, m_l, m_n, m_c, ch_t, u_present, u_new, ch_l, ch_n, ver_same, da_old, da_new, rx_old, rx_new, lib_old, lib_new, codegen, False, ver_near)
 
 
-def _stale(m_t, m_u, m_l, m_n, m_c, ch_t, u_present, u_new, ch_l, ch_n, ver_same, da_old, da_new, rx_old, rx_new, lib_old, lib_new, codegen, count_lib):
+def _stale(m_t, m_u, m_l, m_n, m_c, ch_t, u_present, u_new, ch_l, ch_n, ver_same, da_old, da_new, rx_old, rx_new, lib_old, lib_new, codegen, count_lib, ver_near=False):
     # library selection: 0 = no library folder, 1 = /lib, 2 = /lib2 ; each library holds L.mo and sub/N.mo
     files = {FOLDER + "/T.mo": m_t}
     if u_present:
@@ -218,7 +228,7 @@ def _stale(m_t, m_u, m_l, m_n, m_c, ch_t, u_present, u_new, ch_l, ch_n, ver_same
             rxo = REGEX[k]
         if rx_new == k:
             rxn = REGEX[k]
-    old = {"detect_aliases": da_old, "eliminable_variable_expression": rxo, "library_folders": lf_old, "expand_mx": True}
+    old = {"detect_aliases": da_old, "eliminable_variable_expression": rxo, "library_folders": lf_old, "expand_mx": True, "__near__": ver_near}
     new = {"cache": not codegen, "codegen": codegen, "detect_aliases": da_new, "eliminable_variable_expression": rxn, "library_folders": lf_new}
     res, calls = _run(files, m_c, True, _db(ver_same, old, codegen), None, new)
     src_changed = ch_t or (u_present and u_new) or (lib_new != 0 and (ch_l or ch_n))
@@ -230,7 +240,7 @@ def _stale(m_t, m_u, m_l, m_n, m_c, ch_t, u_present, u_new, ch_l, ch_n, ver_same
 
 
 def reach_stale(m_t: int, m_u: int, m_l: int, m_n: int, m_c: int, ch_t: bool, u_present: bool, u_new: bool, ch_l: bool, ch_n: bool,
-                ver_same: bool, da_old: bool, da_new: bool, rx_old: int, rx_new: int, lib_old: int, lib_new: int, codegen: bool) -> int:
+                ver_same: bool, da_old: bool, da_new: bool, rx_old: int, rx_new: int, lib_old: int, lib_new: int, codegen: bool, ver_near: bool = False) -> int:
     """
     pre: pin(codegen=codegen, lib_new=lib_new, lib_old=lib_old)
     pre: 0 <= rx_old <= 2 and 0 <= rx_new <= 2 and 0 <= lib_old <= 2 and 0 <= lib_new <= 2
@@ -238,7 +248,7 @@ def reach_stale(m_t: int, m_u: int, m_l: int, m_n: int, m_c: int, ch_t: bool, u_
     pre: (not ch_t or m_t > m_c) and (not (u_present and u_new) or m_u > m_c) and (not ch_l or m_l > m_c) and (not ch_n or m_n > m_c)
     post: _ == 0
     """
-    return stale(m_t, m_u, m_l, m_n, m_c, ch_t, u_present, u_new, ch_l, ch_n, ver_same, da_old, da_new, rx_old, rx_new, lib_old, lib_new, codegen)
+    return stale(m_t, m_u, m_l, m_n, m_c, ch_t, u_present, u_new, ch_l, ch_n, ver_same, da_old, da_new, rx_old, rx_new, lib_old, lib_new, codegen, ver_near)
 
 
 def damaged(observe: int, exc: int, m_t: int, m_c: int, codegen: bool, ver_same: bool) -> int:
